@@ -182,16 +182,44 @@ def sibling_constructor_agreement(ctx, rule="R18.a"):
     ci, cr = c_init[0], c_rst[0]
     sparams = repo.method(single, "__init__").params[1:]
 
-    def kwmap(call):
+    def kwmap(call, F=None):
         m = {}
         for p, a in zip(sparams, call.args):
             m[p] = a
         for k in call.keywords:
             if k.arg:
                 m[k.arg] = k.value
+            elif F is not None:
+                # `**options` with options a dict display bound once in the function: its entries are keywords
+                d = ctx.norm.xexpr(F, k.value)
+                if isinstance(d, ast.Dict) and d.keys and all(isinstance(x, ast.Constant) and isinstance(x.value, str) for x in d.keys):
+                    for x, v in zip(d.keys, d.values):
+                        m.setdefault(x.value, v)
         return m
 
-    ki, kr = kwmap(ci), kwmap(cr)
+    # `**{k: v for k, v in options.items() if v is not None}`: a None that the caller passed on purpose is dropped, and
+    # for ready_operations_filter None means "no filter" while the inner default is filter_dominated_operations
+    for F_, call_ in ((init, ci), (rst, cr)):
+        for k in call_.keywords:
+            if k.arg is not None or not isinstance(k.value, ast.Name):
+                continue
+            defs_ = [d_[1] for d_ in ctx.flow.defs(F_).of(k.value.id) if d_[0] == "value" and d_[1] is not None]
+            comp = next((d_ for d_ in defs_ if isinstance(d_, ast.DictComp)), None)
+            disp_ = next((d_ for d_ in defs_ if isinstance(d_, ast.Dict)), None)
+            if comp is None or disp_ is None or len(comp.generators) != 1:
+                continue
+            drops_none = any("is not None" in ast.unparse(c_) or "is None" in ast.unparse(c_) for c_ in comp.generators[0].ifs)
+            keys_ = [x.value for x in disp_.keys if isinstance(x, ast.Constant)]
+            if drops_none and "ready_operations_filter" in keys_:
+                chk.violation(
+                    rule, F_, comp,
+                    "the options handed to the inner environment are filtered with `is not None`: `ready_operations_filter=None` (no "
+                    "filtering) is dropped and the inner environment falls back to its default filter_dominated_operations - the "
+                    "environment does not run with the configuration it was constructed with",
+                    loc=F_.loc(comp),
+                )
+                return
+    ki, kr = kwmap(ci, init), kwmap(cr, rst)
     iparams = set(init_raw.params)
     # attributes of self that store constructor parameters
     stored = {}
@@ -219,7 +247,7 @@ def sibling_constructor_agreement(ctx, rule="R18.a"):
 
     # an argument the two constructors have in common configures the inner
     # environment: the outer constructor hands it on as given
-    star = any(k.arg is None for k in ci.keywords)
+    star = any(k.arg is None and not isinstance(ctx.norm.xexpr(init, k.value), ast.Dict) for k in ci.keywords)
     for P in [q for q in init_raw.params[1:] if q in sparams]:
         got = ki.get(P)
         if got is None and star:
@@ -534,6 +562,19 @@ def step_flags(ctx):
         elif isinstance(dv, ast.UnaryOp) and "is_complete" in txt:
             chk.violation("R18.c", step, dv, f"`done` is `{txt}`: inverted", loc=step.loc(dv))
         else:
+            from ..baseline_api import BASELINE_ATTRS
+
+            known_ = set(BASELINE_ATTRS.get("SingleJobShopGraphEnv", ()))
+            new_state = sorted(
+                x.attr for x in ast.walk(dv)
+                if isinstance(x, ast.Attribute) and isinstance(x.value, ast.Name) and x.value.id == "self" and x.attr.startswith("_") and x.attr not in known_
+            )
+            if new_state:
+                # a counter the environment keeps beside the schedule: right only if it is kept in step with it
+                raise AnalysisError(
+                    f"{step.loc(dv)}: `done` is `{txt}`, computed from bookkeeping the pinned tree does not have (self.{new_state[0]}); whether it "
+                    "always equals the schedule's completeness is not decided by this analysis"
+                )
             chk.violation("R18.c", step, dv, f"`done` is `{txt}`, not the schedule's completeness", loc=step.loc(dv))
     if n == 0:
         raise AnalysisError("step has no returning path")
@@ -888,8 +929,14 @@ def freshness(ctx):
         raise AnalysisError("get_observation: no return path")
     if not bad:
         chk.ok("R18.f", go.qualname, go.loc(), f"{n} return paths read graph.edges() of the current graph")
-    src = ast.unparse(ctx.norm.flat(go).node)
-    if "self.job_shop_graph.removed_nodes" in src:
+    gof = ctx.norm.flat(go)
+    src = ast.unparse(gof.node)
+    # read through a local (`graph = self.job_shop_graph` ... `graph.removed_nodes`) is the same read
+    via_local = any(
+        isinstance(x, ast.Attribute) and x.attr == "removed_nodes" and ctx.norm.xtext(gof, x) == "self.job_shop_graph.removed_nodes"
+        for x in own_nodes(gof.node)
+    )
+    if "self.job_shop_graph.removed_nodes" in src or via_local:
         chk.ok("R18.f", go.qualname, go.loc(), "removed-nodes mask rebuilt from the current graph on every call")
     else:
         chk.violation("R18.f", go, None, "get_observation does not rebuild the removed-nodes mask from the current graph")
